@@ -141,6 +141,7 @@ func checkC14(c *core.Ctx) {
 		}
 	}
 	writerNarrowSizes(c, c.Rule("R14.10", "T", "the writers compute no size in uint8/uint16 that is widened afterwards"))
+	optionSizerCountsHeaders(c, c.Rule("R14.11", "T", "the option sizer adds at least the 4-byte option header for every option"))
 	r8 := c.Rule("R14.8", "T", "unsigned fields read from a file are not sign-extended (no same-width signed conversion before widening)")
 	r9 := c.Rule("R14.9", "T", "ReadPacketData* (the copying calls) return no slice of memory owned by the reader")
 	readerValueRules(c, r8, r9)
@@ -807,5 +808,127 @@ func writerNarrowSizes(c *core.Ctx, r *core.Rule) {
 		r.Missing("pcapgo/writer arithmetic", fmt.Sprintf("only %d operations found", nAr))
 	} else if n == 0 {
 		r.OK("pcapgo/writers-no-narrow-sizes", "", fmt.Sprintf("%d arithmetic operations in the writers; none adds or multiplies in uint8/uint16 before widening", nAr))
+	}
+}
+
+// optionSizerCountsHeaders (R14.11): every pcapng option costs a 4-byte
+// header in the file whatever its value is.  The function that sizes an
+// option list (prepareNgOptions) adds, on every iteration of its loop over the
+// options, an amount whose lower bound — from constants, masks and additions,
+// with an arbitrary non-negative value length — is at least 4.  Counting the
+// headers only when the values are non-empty makes the block length too small
+// for options with empty values.
+func optionSizerCountsHeaders(c *core.Ctx, r *core.Rule) {
+	p := c.P
+	fn := p.Func("pcapgo", "prepareNgOptions")
+	if fn == nil || len(fn.Blocks) == 0 {
+		r.Missing("pcapgo.prepareNgOptions", "not found")
+		return
+	}
+	var lb func(v ssa.Value, d int) int64
+	lb = func(v ssa.Value, d int) int64 {
+		if d > 10 {
+			return 0
+		}
+		if k, ok := core.ConstInt(v); ok {
+			return k
+		}
+		switch x := v.(type) {
+		case *ssa.Convert:
+			return lb(x.X, d+1)
+		case *ssa.BinOp:
+			switch x.Op {
+			case token.ADD:
+				return lb(x.X, d+1) + lb(x.Y, d+1)
+			case token.AND_NOT:
+				if k, ok := core.ConstInt(x.Y); ok {
+					if a := lb(x.X, d+1) - k; a > 0 {
+						return a
+					}
+				}
+				return 0
+			}
+			return 0
+		case *ssa.Phi:
+			m := int64(1 << 40)
+			for _, e := range x.Edges {
+				if l := lb(e, d+1); l < m {
+					m = l
+				}
+			}
+			return m
+		}
+		return 0
+	}
+	// the accumulator: a loop-header φ of the returned value
+	n := 0
+	for _, b := range fn.Blocks {
+		for _, ins := range b.Instrs {
+			ph, ok := ins.(*ssa.Phi)
+			if !ok || len(ph.Edges) != 2 {
+				continue
+			}
+			if bt, ok := ph.Type().Underlying().(*types.Basic); !ok || bt.Info()&types.IsInteger == 0 {
+				continue
+			}
+			var next ssa.Value
+			for i, pr := range b.Preds {
+				if b.Dominates(pr) {
+					next = ph.Edges[i]
+				}
+			}
+			add, ok := next.(*ssa.BinOp)
+			if !ok || add.Op != token.ADD {
+				continue
+			}
+			var inc ssa.Value
+			if add.X == ssa.Value(ph) {
+				inc = add.Y
+			} else if add.Y == ssa.Value(ph) {
+				inc = add.X
+			} else {
+				continue
+			}
+			// only the accumulator that is returned
+			isRet := false
+			for _, ret := range core.Returns(fn) {
+				seen := map[ssa.Value]bool{}
+				var reach func(v ssa.Value, d int) bool
+				reach = func(v ssa.Value, d int) bool {
+					if d > 6 || seen[v] {
+						return false
+					}
+					seen[v] = true
+					if v == ssa.Value(ph) {
+						return true
+					}
+					switch y := v.(type) {
+					case *ssa.Phi:
+						for _, e := range y.Edges {
+							if reach(e, d+1) {
+								return true
+							}
+						}
+					case *ssa.BinOp:
+						return reach(y.X, d+1) || reach(y.Y, d+1)
+					case *ssa.Convert:
+						return reach(y.X, d+1)
+					}
+					return false
+				}
+				if reach(ret.Results[0], 0) {
+					isRet = true
+				}
+			}
+			if !isRet {
+				continue
+			}
+			n++
+			l := lb(inc, 0)
+			r.Check(l >= 4, core.FnKey(fn)+"/per-option-header", p.InstrPos(add), fmt.Sprintf("every option adds at least %d bytes", l), "the size added per option has no lower bound of 4 (the option header): for options whose value is empty nothing, or too little, is added, so the block length written is smaller than the bytes the option writer emits and the reader loses the framing at that block")
+		}
+	}
+	if n < 1 {
+		r.Missing("pcapgo.prepareNgOptions/accumulator", "no returned loop accumulator found")
 	}
 }
